@@ -63,17 +63,15 @@ func mWtAcceptStream(s *wt.Session, ctx context.Context) (wt.Stream, error) {
 	return c09TheStream, nil
 }
 
-// c09NativeSlice is the natively executable slice of the path (the entry point itself
-// needs a QUIC session): the real encoding/json decoder on the same handshake bytes and
-// the field access that follows it in OnWebTransportSession.
-func c09NativeSlice(payload string) {
+// c09DecodeFact is the library fact the path depends on, computed in both worlds (the
+// json.Decoder model symbolically, the real decoder natively) and compared by translator
+// validation: does decoding the handshake payload fail, and does it leave the pointer nil?
+func c09DecodeFact(payload string) (failed bool, isNil bool) {
 	var wth *struct {
 		Sid string `json:"sid"`
 	}
-	if json.NewDecoder(strings.NewReader(payload)).Decode(&wth) != nil {
-		return
-	}
-	_ = len(wth.Sid)
+	failed = json.NewDecoder(strings.NewReader(payload)).Decode(&wth) != nil
+	return failed, wth == nil
 }
 
 // VerifH_C09_wt_handshake_frame: the first frame a WebTransport client sends is arbitrary
@@ -82,11 +80,13 @@ func VerifH_C09_wt_handshake_frame() {
 	w := newSockWorld(transports.POLLING, "4")
 	payloads := []string{"0", "0null", "0{\"sid\":\"\"}", "0{\"sid\":\"nosuch\"}", "0{", "0[1]", "4hello", "0{\"sid\":null}"}
 	pl := payloads[verif.Choose(len(payloads))]
+	if len(pl) > 1 && pl[0] == '0' {
+		failed, isNil := c09DecodeFact(pl[1:])
+		verif.Observe("decodeFailed", failed)
+		verif.Observe("leftNil", isNil)
+	}
 	if !verif.Symbolic() {
-		if len(pl) > 1 && pl[0] == '0' {
-			c09NativeSlice(pl[1:])
-		}
-		return
+		return // the entry point itself needs a QUIC session
 	}
 	frame := append([]byte{byte(len(pl))}, pl...) // one text frame
 	c09TheStream = &c09Stream{in: frame}
